@@ -200,6 +200,25 @@ func c04Deadline(c *cx) {
 			}
 		}
 		c.r.Check(id, sd, "watcher goroutine body", "the goroutine waits on ctx.Done() and then expires the connection's deadline", sd.Pos(), okSel, "no select arm on ctx.Done() leading to Set*Deadline")
+		// the negotiation watcher interrupts BOTH directions: a step that is
+		// blocked in a write when the context ends must fail as well; the
+		// transmit watcher (setWriteDeadline) guards writes only
+		{
+			want := "net.Conn.SetDeadline"
+			if name == "setWriteDeadline" {
+				want = "net.Conn.SetWriteDeadline"
+			}
+			nset := 0
+			for _, l := range sd.Lits {
+				for _, cl := range l.Calls("net.Conn.Set*Deadline") {
+					nset++
+					got := l.CalleeID(cl)
+					okDir := got == want || got == "net.Conn.SetDeadline"
+					c.r.Check(id, l, "direction of the deadline set by the watcher", "K: "+name+"'s watcher sets "+want+" (the negotiation watcher must also interrupt a blocked write)", cl.Pos(), okDir, got+" leaves the other direction uninterrupted: a step blocked in a write outlives the cancellation")
+				}
+			}
+			c.r.Floor(id, "deadline calls in the watcher of "+name, nset, 2)
+		}
 		if name == "setDeadline" {
 			// the expired deadline stays in force until the guarded operation
 			// ends: clearing it at once only interrupts I/O that happens to be in
@@ -530,4 +549,157 @@ func c04ReadyNotAdoptedEarly(c *cx, id string) {
 		c.r.Check(id, f, "state bits adopted per feature exclude Ready", "K: the per-feature update of Session.state is `mask &^ Ready` (or the mask was stripped of Ready on every path): readiness is decided by negotiateSession from the step's result", w.Stmt.Pos(), ok, "the feature's own Ready bit goes into the session state before the rest of the list was negotiated: if a later feature of the list fails, NewSession returns an error and a session that reports Ready")
 	}
 	c.r.Floor(id, "per-feature state updates in negotiateFeatures", n, 1)
+}
+
+// callerSlicesNotRewritten (E-alias, C02.10/C01.16): the feature values, and
+// the slices that hold them, are shared between sessions (one StreamConfig /
+// one features... argument serves every step and every session). No function
+// of the negotiation set writes into a slice it was given: no element
+// assignment through a slice-typed parameter (or a reslice of one), and no
+// append whose destination shares the parameter's backing array (p[:0],
+// p[:n]). A filter "in place" silently drops StartTLS from the caller's list
+// once one session was secure, and the next plain-text session has no
+// downgrade protection left.
+func callerSlicesNotRewritten(c *cx, id string, fns []*eng.Fn) {
+	n := 0
+	for _, f := range fns {
+		if f.Body == nil || f.Sig() == nil {
+			continue
+		}
+		g := f.Graph()
+		isParamSlice := func(v *types.Var) bool {
+			if v == nil {
+				return false
+			}
+			if _, ok := v.Type().Underlying().(*types.Slice); !ok {
+				return false
+			}
+			ps := f.Sig().Params()
+			for i := 0; i < ps.Len(); i++ {
+				if ps.At(i) == v {
+					return true
+				}
+			}
+			// captured parameter of the enclosing function
+			for p := f.Parent; p != nil; p = p.Parent {
+				if p.Sig() == nil {
+					continue
+				}
+				pp := p.Sig().Params()
+				for i := 0; i < pp.Len(); i++ {
+					if pp.At(i) == v {
+						return true
+					}
+				}
+			}
+			return false
+		}
+		// does e denote memory of a parameter slice? (the parameter itself, a
+		// reslice of it, or a local defined as one of these)
+		var shares func(e ast.Expr, pt eng.Point, depth int) *types.Var
+		shares = func(e ast.Expr, pt eng.Point, depth int) *types.Var {
+			if depth > 4 {
+				return nil
+			}
+			switch x := ast.Unparen(e).(type) {
+			case *ast.SliceExpr:
+				return shares(x.X, pt, depth+1)
+			case *ast.Ident:
+				v, _ := f.Info().ObjectOf(x).(*types.Var)
+				if v == nil {
+					return nil
+				}
+				if isParamSlice(v) {
+					// a parameter that was re-assigned a fresh slice is the function's own
+					fresh := true
+					ds := g.ReachingDefs(v, pt)
+					for _, d := range ds {
+						if d.Kind == eng.DefParam {
+							fresh = false
+						} else if d.RHS != nil {
+							if pv := shares(d.RHS, d.At, depth+1); pv != nil {
+								fresh = false
+							}
+						}
+					}
+					if len(ds) == 0 || !fresh {
+						return v
+					}
+					return nil
+				}
+				if !eng.IsLocal(v) {
+					return nil
+				}
+				for _, d := range g.ReachingDefs(v, pt) {
+					if d.RHS != nil && d.Kind == eng.DefPlain {
+						if pv := shares(d.RHS, d.At, depth+1); pv != nil {
+							return pv
+						}
+					}
+				}
+			case *ast.CallExpr:
+				if f.CalleeID(x) == "builtin.append" && len(x.Args) > 0 {
+					// append may or may not reallocate: its result can share
+					return shares(x.Args[0], pt, depth+1)
+				}
+			}
+			return nil
+		}
+		for _, w := range f.Writes() {
+			pt, ok := g.Where(w.Stmt)
+			if !ok {
+				continue
+			}
+			// element assignment p[i] = v
+			if ix, isIx := ast.Unparen(w.LHS).(*ast.IndexExpr); isIx {
+				if _, isSlice := f.Info().TypeOf(ix.X).Underlying().(*types.Slice); isSlice {
+					if pv := shares(ix.X, pt, 0); pv != nil {
+						n++
+						c.r.Check(id, f, "element of caller slice "+pv.Name()+" assigned", "E-alias: negotiation code does not write into a slice it was given (the feature list is shared between steps and sessions)", w.Stmt.Pos(), false, "the assignment rewrites the caller's backing array")
+					}
+				}
+			}
+			// append into the parameter's backing array
+			if w.RHS != nil {
+				if cl, isCall := ast.Unparen(w.RHS).(*ast.CallExpr); isCall && f.CalleeID(cl) == "builtin.append" && len(cl.Args) > 1 {
+					if pv := shares(cl.Args[0], pt, 0); pv != nil {
+						// appending to the full parameter (cap unknown) may also write
+						// into the caller's array, but only behind its length: the
+						// caller's elements are not rewritten. A reslice to a shorter
+						// length is the in-place filter.
+						short := false
+						var walk func(e ast.Expr, pt eng.Point, depth int)
+						walk = func(e ast.Expr, pt eng.Point, depth int) {
+							if depth > 4 {
+								return
+							}
+							switch x := ast.Unparen(e).(type) {
+							case *ast.SliceExpr:
+								if x.High != nil {
+									short = true
+								}
+								walk(x.X, pt, depth+1)
+							case *ast.Ident:
+								if v, _ := f.Info().ObjectOf(x).(*types.Var); v != nil && eng.IsLocal(v) && !isParamSlice(v) {
+									for _, d := range g.ReachingDefs(v, pt) {
+										if d.RHS != nil {
+											walk(d.RHS, d.At, depth+1)
+										}
+									}
+								}
+							case *ast.CallExpr:
+								if f.CalleeID(x) == "builtin.append" && len(x.Args) > 0 {
+									walk(x.Args[0], pt, depth+1)
+								}
+							}
+						}
+						walk(cl.Args[0], pt, 0)
+						n++
+						c.r.Check(id, f, "append into the backing array of caller slice "+pv.Name(), "E-alias: negotiation code does not append into a shortened reslice of a slice it was given (an in-place filter rewrites the caller's elements)", w.Stmt.Pos(), !short, "the destination is a reslice of "+pv.Name()+" to a shorter length: the append overwrites the caller's elements (a feature dropped here is gone for every later step and session)")
+					}
+				}
+			}
+		}
+	}
+	c.r.Note("%s: %d writes through slice parameters examined in the negotiation set", id, n)
 }
